@@ -110,6 +110,39 @@ def merge_stats(agg, st):
 
 
 def _run_block(args):
+    """Run one block of consecutive runs in a forked child of the worker, so
+    that every block starts from a process in which the SUT has merely been
+    imported: whatever state the SUT keeps per process (caches, class or
+    module attributes) can only travel from one run to a later run of the
+    SAME block - never depends on which worker happened to execute which
+    block before - and a violation that needs such state is reproducible from
+    the block's prefix."""
+    import pickle
+    r, w = os.pipe()
+    child = os.fork()
+    if child == 0:
+        try:
+            os.close(r)
+            try:
+                out = _run_block_inner(args)
+            except BaseException:
+                out = {'error': 'block %r failed:\n%s' % (
+                    args[3:5], traceback.format_exc())}
+            with os.fdopen(w, 'wb') as f:
+                pickle.dump(out, f, protocol=pickle.HIGHEST_PROTOCOL)
+        finally:
+            os._exit(0)
+    os.close(w)
+    with os.fdopen(r, 'rb') as f:
+        data = f.read()
+    os.waitpid(child, 0)
+    if not data:
+        return {'error': 'block %r: child died without a result' % (
+            args[3:5],)}
+    return pickle.loads(data)
+
+
+def _run_block_inner(args):
     pid, batch_seed, tier, start, stop, total = args
     chk = _WORKER['chk']
     agg = new_agg()
@@ -244,6 +277,82 @@ def isolated_execute(chk, case, timeout=120):
     return out
 
 
+def isolated_execute_seq(chk, prelude, case, timeout=300):
+    """Like isolated_execute, but the child first executes the cases of
+    `prelude` in order (results ignored): for violations that need state left
+    behind by earlier runs of the same block."""
+    r, w = os.pipe()
+    pid = os.fork()
+    if pid == 0:
+        try:
+            os.close(r)
+            try:
+                for c in prelude:
+                    try:
+                        chk.execute(c)
+                    except Exception:
+                        pass
+                res = chk.execute(case)
+                out = {'violations': res['violations'],
+                       'digest': res['digest']}
+            except BaseException:
+                out = {'error': traceback.format_exc()}
+            data = json.dumps(out, default=core._default).encode()
+            with os.fdopen(w, 'wb') as f:
+                f.write(data)
+        finally:
+            os._exit(0)
+    os.close(w)
+    with os.fdopen(r, 'rb') as f:
+        data = f.read()
+    os.waitpid(pid, 0)
+    if not data:
+        raise core.HarnessError('isolated execution produced nothing')
+    out = json.loads(data.decode())
+    if 'error' in out:
+        raise core.HarnessError('isolated execution failed:\n' + out['error'])
+    return out
+
+
+def block_prefix(chk, pid, batch_seed, tier, index, start, total):
+    """The cases of the runs that precede run `index` in its block."""
+    b0 = start + (index - start) // chk.BLOCK * chk.BLOCK
+    out = []
+    for i in range(b0, index):
+        rs = core.derive_run_seed(pid, batch_seed, i)
+        out.append(chk.gen(core.Streams(rs), tier, i, total))
+    return out
+
+
+def minimise_prelude(chk, prelude, case, key, max_exec=60):
+    """ddmin-style: drop parts of the prelude while the violation stays."""
+    execs = 0
+    cur = list(prelude)
+    size = max(1, len(cur) // 2)
+    while size >= 1 and cur:
+        i = 0
+        progressed = False
+        while i < len(cur) and execs < max_exec:
+            cand = cur[:i] + cur[i + size:]
+            execs += 1
+            try:
+                res = isolated_execute_seq(chk, cand, case)
+            except Exception:
+                i += size
+                continue
+            if any(vkey(chk, case, v) == key for v in res['violations']):
+                cur = cand
+                progressed = True
+            else:
+                i += size
+        if execs >= max_exec:
+            break
+        if size == 1 and not progressed:
+            break
+        size = max(1, size // 2) if size > 1 else (1 if progressed else 0)
+    return cur
+
+
 # ------------------------------------------------------------- minimiser
 
 def vkey(chk, case, v):
@@ -295,7 +404,7 @@ def load_findings(pid):
 
 # ------------------------------------------------------------- replay
 
-def write_replay(pid, item, case, violation, digest, finding):
+def write_replay(pid, item, case, violation, digest, finding, prelude=None):
     d = os.path.join(VERIF, 'replays', pid)
     os.makedirs(d, exist_ok=True)
     name = '%s-%d.json' % (violation['cls'].replace('/', '_'),
@@ -304,6 +413,10 @@ def write_replay(pid, item, case, violation, digest, finding):
     doc = {'property': pid, 'run_seed': item['run_seed'],
            'index': item['index'], 'finding': finding,
            'violation': violation, 'digest': digest, 'case': case}
+    if prelude:
+        # cases executed before `case` in the same process (state the SUT
+        # keeps between calls is part of what makes the violation appear)
+        doc['prelude'] = prelude
     with open(path, 'w') as f:
         json.dump(doc, f, indent=1, sort_keys=True, default=core._default)
     return path
@@ -313,6 +426,11 @@ def do_replay(chk, path):
     with open(path) as f:
         doc = json.load(f)
     chk.setup()
+    for c in doc.get('prelude') or []:
+        try:
+            chk.execute(c)
+        except Exception:
+            pass
     res = chk.execute(doc['case'])
     want = doc['violation']['cls']
     hit = [v for v in res['violations'] if v['cls'] == want]
@@ -425,6 +543,38 @@ def main(argv=None):
             harness_errors.append('isolated run: ' + traceback.format_exc())
             continue
         vs = [v for v in res['violations'] if vkey(chk, case, v) == k]
+        prelude = None
+        if not vs:
+            # needs state left behind by earlier runs of its block?
+            try:
+                pre = block_prefix(chk, pid, batch_seed, tier, item['index'],
+                                   args.start, args.start + runs)
+                res = isolated_execute_seq(chk, pre, case)
+                vs = [v for v in res['violations']
+                      if vkey(chk, case, v) == k]
+                if vs:
+                    prelude = minimise_prelude(chk, pre, case, k)
+                    res = isolated_execute_seq(chk, prelude, case)
+                    vs = [v for v in res['violations']
+                          if vkey(chk, case, v) == k]
+            except Exception:
+                harness_errors.append('block-prefix run: ' +
+                                      traceback.format_exc())
+                vs = []
+        if prelude is not None and vs:
+            path = write_replay(pid, item, case, vs[0], res['digest'], fid,
+                                prelude=prelude)
+            ok, txt = fresh_replay_ok(pid, path)
+            if not ok:
+                harness_errors.append(
+                    'replay %s (with prelude) did not reproduce in a fresh '
+                    'interpreter:\n%s' % (path, txt[-2000:]))
+                continue
+            viol_lines.append('VIOLATION property=%s replay=%s' % (pid, path))
+            print('violation class=%s finding=%s runs=%d prelude=%d detail=%s'
+                  % (cls, fid, len(items), len(prelude),
+                     core.canon(vs[0]['detail'])[:1500]))
+            continue
         if not vs:
             harness_errors.append(
                 'violation %s (run %d, seed %d) was observed in the batch but '
